@@ -886,6 +886,10 @@ func judge(input, out []byte, calls []string, tolNotif bool) verdict {
 	gotR = dedupe(gotR)
 	gotC = dedupe(gotC)
 	det := explain(entries, resps, calls)
+	if len(unexp) == 0 && len(leftC) == 0 && len(leftR) > 0 && strayAllNull(leftR) && anyTrue(notif) {
+		// more responses than requests, all anonymous, and the document contains notifications
+		return verdict{key: "notification-answered " + kind + " " + strings.Join(gotR, ","), detail: det, outcome: outcome}
+	}
 	if idMismatch > 0 {
 		return verdict{key: "response-id-mismatch " + kind, detail: det, outcome: outcome}
 	}
@@ -913,9 +917,9 @@ func illTyped(v *jv) string {
 	return strings.Join(bad, "+")
 }
 
-func strayAllNullErrors(rs []string) bool {
+func strayAllNull(rs []string) bool {
 	for _, r := range rs {
-		if !strings.HasPrefix(r, "id=null|E") {
+		if !strings.HasPrefix(r, "id=null|") {
 			return false
 		}
 	}
